@@ -48,6 +48,15 @@ def cases(draw):
     cfg["ops"] = ops
     # a public tuning attribute the user may have changed before saving (the Hamiltonian and ensemble samplers have it)
     cfg["set_max_attempts"] = draw(st.sampled_from([None, None, 7, 50]))
+    # the numeric types of what the user hands over: a model evaluated in single precision returns float32 log-probabilities /
+    # gradients, a temperature or mass taken from a numpy array is a numpy scalar, widths / start may be float32 arrays, a matrix
+    # mass may be a strided view of a larger matrix.  The file holds plain numbers: the reloaded sampler must compute as the original does
+    if draw(st.integers(0, 2)) == 0:
+        cfg["prec"] = {"T": draw(st.sampled_from(["python", "numpy"])), "widths": draw(st.sampled_from([None, "float32"])),
+                       "start": draw(st.sampled_from([None, "float32"])), "mass": draw(st.sampled_from([None, "view"]))}
+        cfg["target"] = dict(cfg["target"])
+        cfg["target"]["out_dtype"] = draw(st.sampled_from([None, "float32"]))
+        cfg["target"]["grad_dtype"] = draw(st.sampled_from([None, "float32"]))
     return cfg
 
 
@@ -195,6 +204,9 @@ def body(case, ctx):
             ctx.event("T!=1")
         if cls == "hmc":
             ctx.event("mass=" + cfg["hmc"]["mass"])
+        if cfg.get("prec"):
+            ctx.event("numeric forms: " + ",".join(sorted(k + "=" + str(v) for k, v in {**cfg["prec"], "post": cfg["target"].get("out_dtype"),
+                                                                                       "grad": cfg["target"].get("grad_dtype")}.items() if v not in (None, "python"))) or "numeric forms: none")
     finally:
         shutil.rmtree(tmp, ignore_errors=True)
 
